@@ -70,7 +70,7 @@ def histLine (ws : List String) : String :=
   | w :: m :: toks =>
     match w.toNat?, parseAll toks with
     | some w, some h =>
-      if m = "c" then verdict (judge w true h) else if m = "s" then verdict (judge w false h) else "bad-op"
+      if m = "c" then verdict w true h else if m = "s" then verdict w false h else "bad-op"
     | _, _ => "bad-op"
   | _ => "bad-op"
 
